@@ -158,6 +158,28 @@ static J project(World &w) {
     return m;
 }
 
+
+// A pure atomic LOAD that the specification does not expect at this point cannot by itself change the protocol state:
+// it is executed silently (at most twice per thread and step; the code after it is then its own silent step at this
+// grain) so that a behaviour-preserving extra load does not raise an alarm.
+static void absorb_extra_loads(World &w, const std::string &expected) {
+    JV exp = JReader(expected).parse();
+    const JV &pend = exp.at("pend");
+    for (auto &kv : pend.m) {
+        auto it = w.tid.find(kv.first);
+        if (it == w.tid.end()) continue;
+        for (int i = 0; i < 2; i++) {
+            int t = it->second;
+            if (!w.sched.parked(t) || w.sched.pending_after(t)) break;
+            const auto &e = w.sched.pending(t);
+            if (e.op != op_t::load && e.op != op_t::conv) break;
+            if (pend_of(w, kv.first) == kv.second.as_str()) break;
+            w.sched.step(t);                                   // the load itself
+            if (w.sched.parked(t) && w.sched.pending_after(t)) w.sched.step(t);   // the local code that follows it
+        }
+    }
+}
+
 static void run(const Scenario &sc, Reporter &rep) {
     World *pw = new World();   // leaked on deadlock (stuck threads reference it)
     World &w = *pw;
@@ -212,7 +234,15 @@ static void run(const Scenario &sc, Reporter &rep) {
             bad = true;
             break;
         }
+        // the acting thread may be parked at an unexpected pure load (no action of the specification starts with one)
+        for (int i = 0; i < 2 && w.sched.parked(t) && !w.sched.pending_after(t) && (w.sched.pending(t).op == op_t::load || w.sched.pending(t).op == op_t::conv); i++) {
+            w.sched.step(t);
+            if (w.sched.parked(t) && w.sched.pending_after(t)) w.sched.step(t);
+        }
+        learn_nodes(w);
+        if (!w.sched.enabled(t)) { rep.diverge(k, "thread not enabled after an absorbed load got=" + project(w).dump()); bad = true; break; }
         w.sched.step(t);
+        absorb_extra_loads(w, st.expected);
         if (!rep.check(k, project(w))) bad = true;
     }
     bool drained = w.sched.drain();
